@@ -10,10 +10,11 @@ V: TLC (TextTrace + reference lexer LuaLex) judges: identical code-token stream;
 import json, os, random
 import vlib
 from vlib import Report, tlc, tlc_ok
-from text_common import trivia_cases, run_and_judge, text_of, lits, rejudge_without_ellipsis_trivia
+from text_common import trivia_cases, run_and_judge, text_of, lits, rejudge_without_ellipsis_trivia, ends_with_generic_pack
 
 PID = "C18"
 EXCEPT = ["KEEP", "^--!"]
+END_TEXTS = ["x", "a\nb", "[x[ hi", "[[ z", "]]", "--", "[=[ ]] ]=]", "-"]
 FILES = ["", "return 1", "local a = 1 -- tail", "local a = 1\n-- c\nreturn a\n", "--[[ first ]] f()\n\nreturn f --[=[ last ]=]"]
 
 
@@ -54,7 +55,26 @@ def build_cases(tier, rng):
                               "rules": "[{ rule: 'append_text_comment', text: %s, location: '%s' }]" % (esc(ts), loc),
                               "design_safe": t["safe"], "opens_long": t["opens_long"], "lone_cr": t["lone_cr"], "file": fi})
                 ntext += 1
-    return cases, st + g.distinct, gen + g.generated, len(trivia), len(texts), sum(1 for t in texts if not t["safe_unchecked"])
+    # every statement kind as the last statement of the file (Trivia!Endings, with and without a closing `;`) x texts of
+    # every comment form the rule can choose: where does a comment written at the END land, and does any line move?
+    endings, st3, gen3 = trivia_cases(["endings"])
+    for ei, e in enumerate(endings):
+        for ti, ts in enumerate(END_TEXTS):
+            for loc in ("end", "start"):
+                if loc == "start" and (tier == "quick" and (ei + ti) % 4 != 0):
+                    continue
+                cases.append({"id": "ae%d_%d_%s" % (ei, ti, loc), "src": e["src"], "kind": "append", "location": loc, "text": list(ts.encode("latin-1")),
+                              "rules": "[{ rule: 'append_text_comment', text: %s, location: '%s' }]" % (esc(ts), loc),
+                              "design_safe": True, "opens_long": False, "lone_cr": False, "file": 100 + ei, "ending": e["gap"]})
+    # the token templates (incl. the typed ones) as files
+    for c in trivia:
+        if c["mode"] == "single" and c["gap"] == 0 and c["k1"] == 11:
+            for ti, ts in enumerate(END_TEXTS[:4]):
+                for loc in ("end", "start"):
+                    cases.append({"id": "at%d_%d_%s" % (c["tpl"], ti, loc), "src": c["src"], "kind": "append", "location": loc, "text": list(ts.encode("latin-1")),
+                                  "rules": "[{ rule: 'append_text_comment', text: %s, location: '%s' }]" % (esc(ts), loc),
+                                  "design_safe": True, "opens_long": False, "lone_cr": False, "file": 200 + c["tpl"]})
+    return cases, st + st3 + g.distinct, gen + gen3 + g.generated, len(trivia), len(texts), sum(1 for t in texts if not t["safe_unchecked"])
 
 
 def judge_all(rep, cases, label):
@@ -71,9 +91,11 @@ def judge_all(rep, cases, label):
             continue
         sig = {"kind": o["kind"], "status": o["status"][:100], "code_equal": v["code_equal"], "comments_ok": v["comments_ok"],
                "lines_ok": v["lines_ok"], "lex_out": v["lex_out"], "cause": "trivia-after-type-pack-ellipsis" if cid in ellipsis else "other"}
+        if o["kind"] == "append" and o["location"] == "end" and v["code_equal"] and not v["comments_ok"] and ends_with_generic_pack(text_of(o["srcb"])):
+            sig["cause"] = "trivia-after-type-pack-ellipsis"      # the comment was attached to a token whose trivia is never written
         if o["kind"] == "append":
             sig.update({"location": o["location"], "text": bytes(o["text"]).decode("latin-1"), "opens_long": o.get("opens_long", False),
-                        "lone_cr": o.get("lone_cr", False), "file": o.get("file", -1)})
+                        "lone_cr": o.get("lone_cr", False), "file": o.get("file", -1), "ending": o.get("ending", 0)})
         else:
             sig.update({"tpl": o.get("tpl"), "gap": o.get("gap"), "k1": o.get("k1"), "k2": o.get("k2"), "mode": o.get("mode")})
         payload = {k: o[k] for k in o if k not in ("srcb", "outb")}
